@@ -1,6 +1,191 @@
-//! stub: domain `spline` (filled in by its builder)
-use crate::Ints;
+//! C14 / C15: B-spline basis functions and solved splines (mirror of coq/theories/Run/RunSpline.v).
+//!   ev   : i k orgflag org nt t* x            -> bsplev_single_f64(x, i, k, t, org)
+//!   dn   : i k m orgflag org nt t* x          -> bspldnev_single_f64(x, i, k, t, m, org)
+//!   grid : k imax mmax nt t* nx x*            -> for x, for i < imax: bsplev(None), then
+//!                                                bspldnev(None) for m = 0..=mmax
+//! each result `0 bits` (Ok) / `1` (Err) / `2` (Panic), concatenated.
+//!   pp   : kind k nt t* hasc [nc c*] dosolve [ntau tau* ny y* left_n right_n lsq] nq query*
+//!          kind 0 PPSpline<f64> / 1 PPSpline<Dual> / 2 PPSpline<Dual2> (c, y encoded accordingly)
+//!          query = 0 x m (ppdnev_single) | 1 X m (ppdnev_single_dual) | 2 X m (ppdnev_single_dual2)
+//!                | 3 number (NumberMapping::mapped_value)
+//!          output: outcome of PPSpline::new; outcome of csolve followed by the coefficients
+//!          (count, values; -1 when unset); then each query as outcome + value.
+use crate::cal::Rd;
+use crate::numenc::*;
+use crate::{catch, f2i, Ints};
+use rateslib::dual::{Dual, Dual2, NumberMapping};
+use rateslib::splines::{bspldnev_single_f64, bsplev_single_f64, PPSpline};
 
-pub fn run(_op: &str, _a: &Ints) -> Ints {
-    vec![-1]
+fn out_f(o: Option<f64>, out: &mut Ints) {
+    match o {
+        Some(v) => {
+            out.push(0);
+            out.push(f2i(v));
+        }
+        None => out.push(2),
+    }
+}
+
+fn rd_org(r: &mut Rd) -> Option<usize> {
+    let fl = r.next();
+    let org = r.next() as usize;
+    if fl == 1 {
+        Some(org)
+    } else {
+        None
+    }
+}
+
+fn rd_fvec(r: &mut Rd) -> Vec<f64> {
+    let n = r.next() as usize;
+    read_fs(r, n)
+}
+
+pub fn run(op: &str, a: &Ints) -> Ints {
+    let mut r = Rd::new(a);
+    let mut out: Ints = vec![];
+    match op {
+        "ev" => {
+            let i = r.next() as usize;
+            let k = r.next() as usize;
+            let org = rd_org(&mut r);
+            let t = rd_fvec(&mut r);
+            let x = read_f(&mut r);
+            out_f(catch(|| bsplev_single_f64(&x, i, &k, &t, org)), &mut out);
+        }
+        "dn" => {
+            let i = r.next() as usize;
+            let k = r.next() as usize;
+            let m = r.next() as usize;
+            let org = rd_org(&mut r);
+            let t = rd_fvec(&mut r);
+            let x = read_f(&mut r);
+            out_f(catch(|| bspldnev_single_f64(&x, i, &k, &t, m, org)), &mut out);
+        }
+        "grid" => {
+            let k = r.next() as usize;
+            let imax = r.next() as usize;
+            let mmax = r.next() as usize;
+            let t = rd_fvec(&mut r);
+            let xs = rd_fvec(&mut r);
+            for x in xs.iter() {
+                for i in 0..imax {
+                    out_f(catch(|| bsplev_single_f64(x, i, &k, &t, None)), &mut out);
+                    for m in 0..=mmax {
+                        out_f(catch(|| bspldnev_single_f64(x, i, &k, &t, m, None)), &mut out);
+                    }
+                }
+            }
+        }
+        "pp" => return pp(&mut r),
+        _ => return vec![-1],
+    }
+    out
+}
+
+// ------------------------------------------------------------------------------------------ C15
+
+fn write_f(x: &f64, out: &mut Ints) {
+    out.push(f2i(*x));
+}
+
+/// Ok(v) -> 0 payload, Err(PyErr) -> 1, panic -> 2
+fn out_res<A, F: FnOnce() -> Result<A, pyo3::PyErr>, W: Fn(&A, &mut Ints)>(f: F, w: W, out: &mut Ints) {
+    match catch(f) {
+        Some(Ok(v)) => {
+            out.push(0);
+            w(&v, out);
+        }
+        Some(Err(_)) => out.push(1),
+        None => out.push(2),
+    }
+}
+
+macro_rules! session {
+    ($r:expr, $ty:ty, $rd:expr, $wr:expr) => {{
+        let r: &mut Rd = $r;
+        let mut out: Ints = vec![];
+        let k = r.next() as usize;
+        let t = rd_fvec(r);
+        let hasc = r.next();
+        let c: Option<Vec<$ty>> = if hasc == 1 {
+            let nc = r.next() as usize;
+            Some((0..nc).map(|_| $rd(r)).collect())
+        } else {
+            None
+        };
+        let dosolve = r.next();
+        let mut s: PPSpline<$ty> = match catch(|| PPSpline::new(k, t.clone(), c.clone())) {
+            Some(s) => s,
+            None => return vec![2],
+        };
+        out.push(0);
+        if dosolve == 1 {
+            let tau = rd_fvec(r);
+            let ny = r.next() as usize;
+            let y: Vec<$ty> = (0..ny).map(|_| $rd(r)).collect();
+            let ln = r.next() as usize;
+            let rn = r.next() as usize;
+            let lsq = r.next() == 1;
+            let mut s2 = s.clone();
+            match catch(|| {
+                let res = s2.csolve(&tau, &y, ln, rn, lsq);
+                (res, s2)
+            }) {
+                Some((Ok(()), snew)) => {
+                    out.push(0);
+                    match snew.c() {
+                        Some(c) => {
+                            out.push(c.len() as i128);
+                            for v in c.iter() {
+                                $wr(v, &mut out);
+                            }
+                        }
+                        None => out.push(-1),
+                    }
+                    s = snew;
+                }
+                Some((Err(_), _)) => out.push(1),
+                None => out.push(2),
+            }
+        }
+        let nq = r.next() as usize;
+        for _ in 0..nq {
+            match r.next() {
+                0 => {
+                    let x = read_f(r);
+                    let m = r.next() as usize;
+                    out_res(|| s.ppdnev_single(&x, m), |v, o| $wr(v, o), &mut out);
+                }
+                1 => {
+                    let x = read_dual(r);
+                    let m = r.next() as usize;
+                    out_res(|| s.ppdnev_single_dual(&x, m), |v, o| write_dual(v, o), &mut out);
+                }
+                2 => {
+                    let x = read_dual2(r);
+                    let m = r.next() as usize;
+                    out_res(|| s.ppdnev_single_dual2(&x, m), |v, o| write_dual2(v, o), &mut out);
+                }
+                3 => {
+                    let x = read_number(r);
+                    out_res(|| s.mapped_value(&x), |v, o| write_number(v, o), &mut out);
+                }
+                _ => {
+                    out.push(-1);
+                    break;
+                }
+            }
+        }
+        out
+    }};
+}
+
+fn pp(r: &mut Rd) -> Ints {
+    match r.next() {
+        0 => session!(r, f64, |r: &mut Rd| read_f(r), |v: &f64, o: &mut Ints| write_f(v, o)),
+        1 => session!(r, Dual, |r: &mut Rd| read_dual(r), |v: &Dual, o: &mut Ints| write_dual(v, o)),
+        2 => session!(r, Dual2, |r: &mut Rd| read_dual2(r), |v: &Dual2, o: &mut Ints| write_dual2(v, o)),
+        _ => vec![-1],
+    }
 }
